@@ -7,10 +7,14 @@
 //! place and compared again, judged against the model running the same sequence.
 //! Every binary operation is also called with both operands being ONE object and with the operands in adjacent
 //! array elements (`Place` in `engine.rs`), and every operation is repeated a few hundred thousand times while
-//! other threads compute on other operands (`interfere.rs`): f80 operations are pure, so neither may matter.
+//! other threads compute on other operands (`interfere.rs`), and called on a fresh thread after each member of an
+//! alphabet of earlier x87 operations that leave sticky status-word flags behind (`history.rs`): f80 operations
+//! are pure, so none of this may matter.
 
 #[cfg(target_arch = "x86_64")]
 mod engine;
+#[cfg(target_arch = "x86_64")]
+mod history;
 #[cfg(target_arch = "x86_64")]
 mod interfere;
 #[cfg(target_arch = "x86_64")]
